@@ -11,6 +11,12 @@ for d in $(ls -d seeded/C*/ | sort); do
   [ -n "${ONLY:-}" ] && [[ "$name" != $ONLY* ]] && continue
   patch=$d/patch.diff; [ -f $d/patch.rebased.diff ] && patch=$d/patch.rebased.diff
   note=""
+  if [ -f $d/SUPERSEDED ]; then
+    # the change no longer breaks the property on the current tree (a later fix: commit took away what it relied on)
+    [ $first -eq 0 ] && echo "," >> $tmp; first=0
+    printf ' "%s": {"property": "%s", "check_exit": "", "detected": null, "keys": "", "note": "superseded: %s"}' "$name" "$prop" "$(tr -d '"\n' < $d/SUPERSEDED)" >> $tmp
+    echo "$name superseded"; continue
+  fi
   # a seed that breaks its property through another property's territory is run against that check
   # (seeded/<name>/check_with names it; DESIGN.md §8.5 says why)
   runprop=$prop; [ -f $d/check_with ] && runprop=$(cat $d/check_with)
